@@ -22,8 +22,10 @@ structure St where
   n : Nat
   net : Net := Net.empty
   sp : Paths.State
-  mods : List Nat := []
+  tree : List Topo.Ent := []            -- ModuleTree order
   owner : List (Nat × Nat) := []        -- gate ↦ module, creation order
+
+def St.mods (st : St) : List Nat := st.tree.map (·.id)
 
 def St.ownerOf (st : St) (g : Nat) : Nat := ((st.owner.find? (·.1 == g)).map (·.2)).getD 0
 def St.gatesOf (st : St) (m : Nat) : List Nat := (st.owner.filter (·.2 == m)).map (·.1)
@@ -144,12 +146,18 @@ structure Stats where
   asym : Nat := 0          -- … that are not bidirectional (connected was queried on them)
   asymconn : Nat := 0      -- … not bidirectional and yet connected
   root0 : Nat := 0         -- … not connected although node 0 reaches every node
+  runops : Nat := 0        -- ops executed by modules while the simulation runs
+  extractions : Nat := 0   -- global views extracted (build time and run time)
+  changed : Nat := 0       -- … that differ from the previous extraction of the same simulation
+  unsorted : Nat := 0      -- … with edges, whose node order (ModuleTree order) is not the creation order
+  lastView : String := ""
 
 def maxGate (body : List String) : Nat := Id.run do
   let mut n := 0
   for line in body do
     match words (splitArrow line).1 with
     | "gate" :: g :: _ => if let some j := ident 'g' g then n := max n (j + 1)
+    | "rgate" :: g :: _ => if let some j := ident 'g' g then n := max n (j + 1)
     | _ => pure ()
   return n
 
@@ -166,14 +174,30 @@ def runCase (c : Case) : String := Id.run do
       continue
     i := i + 1
     let (lhs, rhs) := splitArrow line
-    let l := words lhs
+    -- run-time ops are the build-time ops executed by module `by` at time `at`; the transcript lists them in time order
+    let l0 := words lhs
+    let isRun := match l0.head? with
+      | some w => w == "rtopo" || w == "rspanned" || w == "rgate" || w == "rconnect"
+      | none => false
+    let l := if !isRun then l0 else
+      let core := l0.filter fun t => !(t.startsWith "at=") && !(t.startsWith "by=")
+      match core with
+      | "rtopo" :: _ => ["topo"]
+      | "rspanned" :: m :: _ => ["spanned", m]
+      | "rgate" :: g :: _ => ["gate", g, s!"mod={(kv l0 "by").getD "?"}"]
+      | "rconnect" :: a :: b :: _ => ["rconnect", a, b]
+      | other => other
+    if isRun then s := { s with runops := s.runops + 1 }
     let impl := rhs.trimAscii.toString
     let failR := fun (spec model : String) => s!"fail {id} op={i} kind=reject line=[{lhs}] spec=[{spec}] model=[{model}] impl=[{impl}]"
     let failD := fun (spec model : String) => s!"fail {id} op={i} kind=diverge line=[{lhs}] spec=[{spec}] model=[{model}] impl=[{impl}]"
     match l with
-    | ["mod", m] =>
+    | "mod" :: m :: rest =>
       match ident 'm' m with
-      | some m => st := { st with mods := st.mods ++ [m] }
+      | some m =>
+        match Topo.treeAdd st.tree m ((kv rest "parent").bind (ident 'm')) with
+        | some tree => st := { st with tree := tree }
+        | none => return s!"fail {id} op={i} kind=diverge line=[{lhs}] detail=parent-missing-in-model"
       | none => return s!"fail {id} op={i} kind=badline detail=[{line}]"
     | "gate" :: g :: rest =>
       match ident 'g' g, (kv rest "mod").bind (ident 'm') with
@@ -193,12 +217,31 @@ def runCase (c : Case) : String := Id.run do
         if impl != modelAns then return failD specAns modelAns
         st := { st with net := net', sp := sp' }
       | _, _ => return s!"fail {id} op={i} kind=badline detail=[{line}]"
+    | ["rconnect", a, b] =>
+      match ident 'g' a, ident 'g' b with
+      | some a, some b =>
+        -- the harness does not call `connect` on a full gate (it would panic inside the module)
+        let declared := fun (g : Nat) => st.owner.any (·.1 == g)
+        let expect :=
+          if !declared a || !declared b then "nogate"   -- (a script whose rgate line was deleted)
+          else if a == b || (st.net a).len ≥ 2 || (st.net b).len ≥ 2 then "skipped" else "ok"
+        if impl != expect then return failR expect expect
+        if expect == "ok" then
+          let (_, sp') := Paths.connect st.sp a b
+          match connect st.net a b none with
+          | .ok net' => st := { st with net := net', sp := sp' }
+          | .error _ => return failD "ok" "model-connect-fails"
+      | _, _ => return s!"fail {id} op={i} kind=badline detail=[{line}]"
     | ["topo"] =>
       let t := Topo.current st.world
       let g := st.graph
       s := { s with queries := s.queries + 1, maxnodes := max s.maxnodes g.mods.length, maxedges := max s.maxedges g.edges.length }
       let sa := describeSpec g
       let ma := describeModel t
+      s := { s with extractions := s.extractions + 1 }
+      if s.lastView != "" && s.lastView != ma then s := { s with changed := s.changed + 1 }
+      if !g.edges.isEmpty && g.mods != (g.mods.toArray.qsort (· < ·)).toList then s := { s with unsorted := s.unsorted + 1 }
+      s := { s with lastView := ma }
       if impl != sa then return failR sa ma
       if impl != ma then return failD sa ma
     | ["edgesfor", m] =>
@@ -321,8 +364,10 @@ def runCase (c : Case) : String := Id.run do
     | _ => return s!"fail {id} op={i} kind=badline detail=[{line}]"
   -- non-trivial: >= 3 modules, >= 4 edges, a spanned view with >= 2 frontier nodes, a dijkstra with a far target
   -- … and >= 1 edge-filtered view that is not bidirectional (connected / bidirectional were queried on it)
+  -- … and, when the global view was extracted more than once, >= 1 extraction that differs from the one before
   let nt := s.maxnodes ≥ 3 && s.maxedges ≥ 4 && s.frontier ≥ 1 && s.far ≥ 1 && s.asym ≥ 1
-  return s!"ok {id} nt={if nt then 1 else 0} ops={i} queries={s.queries} spanned={s.spanned} dijkstra={s.dijkstra} filters={s.filters} frontier={s.frontier} far={s.far} nodes={s.maxnodes} edges={s.maxedges} fviews={s.fviews} asym={s.asym} asymconn={s.asymconn} root0={s.root0}"
+    && (s.extractions ≤ 1 || s.changed ≥ 1)
+  return s!"ok {id} nt={if nt then 1 else 0} ops={i} queries={s.queries} spanned={s.spanned} dijkstra={s.dijkstra} filters={s.filters} frontier={s.frontier} far={s.far} nodes={s.maxnodes} edges={s.maxedges} fviews={s.fviews} asym={s.asym} asymconn={s.asymconn} root0={s.root0} runops={s.runops} extractions={s.extractions} changed={s.changed} unsorted={s.unsorted}"
 
 def main (stdin : IO.FS.Stream) : IO Unit := do
   let cases ← readCases stdin
